@@ -18,9 +18,9 @@ from .common import MachineryError
 HERE = os.path.dirname(os.path.abspath(__file__))
 SCALAR_KINDS = ["string", "string_delim", "int8", "int16", "int32", "int64", "int", "uint8", "uint16", "uint32", "uint64", "uint",
                 "float32", "float64"]
-C01_KINDS = [k for k in SCALAR_KINDS if k != "string_delim"] + ["slice_int", "slice_string"]
-C01_CARRIERS = ["tag", "rm", "var", "map", "url", "urle"]
-C18_CARRIERS = ["tag", "var", "map", "mapiface", "slicemap", "url", "urle", "urln", "urlne"]
+C01_KINDS = SCALAR_KINDS + ["slice_int", "slice_string"]
+C01_CARRIERS = ["tag", "rm", "var", "map", "url", "urle", "urlw"]
+C18_CARRIERS = ["tag", "var", "map", "mapiface", "slicemap", "url", "urle", "urln", "urlne", "urlw", "urlwn"]
 CLASS = dict(string="string", string_delim="string", slice_int="slice", slice_string="slice", float32="float", float64="float")
 
 
@@ -144,7 +144,7 @@ def replay_groups(ctx, vh, vals, groups, kinds, carriers):
                 st["mismatches"] += 1
                 expected = "violated" if viol[i] else "satisfied"
                 observed = {"0": "none", "1": "clause", "E": "error", "P": "panic"}.get(ch, ch)
-                cg = car if car in ("mapiface", "url", "urle", "urln", "urlne") else "any"
+                cg = car if car in ("mapiface", "url", "urle", "urln", "urlne", "urlw", "urlwn") else "any"
                 key = (c, g["rule"], cg, expected, observed, g["kind"] == "string_delim")
                 f = found.setdefault(key, dict(n=0, carriers={}, first=None))
                 f["n"] += 1
